@@ -23,6 +23,22 @@ CHECKS = {
    text="Same engine; histories of accepted appends laid out across block-cache and read-buffer boundaries and 1-12 segments; at 3-6 checkpoints (sealed-segment index flush held, released, after reopen) every stream and partition is scanned from a sweep of start positions in both directions with batch sizes 1..len+5 and compared with the model (forward: exactly model[start..]; reverse: set equality with model[..=start], transaction-contiguous groups, decreasing order).",
    note="The sweep is exhaustive in start position only for streams/partitions of <=12 events, sampled above. Known finding listed: reverse scans starting inside a transaction return later siblings.",
    technique=TECH + ": seeded histories plus scan-parameter sweeps at scheduler-controlled checkpoints (index flush held/released, reopen) against a reference model", ref="§4 C03"),
+ "C05": dict(engine="storesim", cat="fault_enumeration",
+   text="Same engine; appends are submitted without waiting for their acknowledgement under sync policies that leave an unsynced tail. At 2-5 crash instants per history the harness builds, from the fsync ledger, the power-loss image for every cut k of the live segment's unsynced tail (bytes written up to k + durable bytes after k; every byte when the tail is <= 4 KiB and under the per-instant cap, else record/field boundaries +-1 and PRNG cuts), reopens each image with the real DatabaseBuilder::open and requires: open succeeds, state = model after a per-bucket prefix of the written transactions that contains every acknowledged one, all read APIs work, three further appends continue the numbering without gap or reuse, a second reopen succeeds.",
+   note="Enumeration is exhaustive per sampled crash instant only (reported per run); images are built by the harness from hook records, not by the kernel; sealed-segment index files are taken as written (C06 varies them).",
+   technique=TECH + ": crash-point enumeration - every byte cut of the unsynced tail per crash instant, images built from an fsync ledger, recovery checked against a reference model", ref="§4 C05"),
+ "C06": dict(engine="storesim", cat="fault_enumeration",
+   text="Same engine; background index flush jobs are held at their hook point so a rollover leaves the sealed segment's three index files empty; the real job is then released to obtain the complete contents. Per sealed segment the files are put into {empty, every 64-byte prefix and header-field boundary, complete} with one file swept through all states while the others take PRNG states, plus the all-empty (process crash before the flush) and all-complete corners; every image is reopened and checked like C05 (every acknowledged event found by id, stream scan, partition scan; numbering continues).",
+   note="Pairwise rather than cubic coverage of the three files' states; prefixes are truncations of the content the real job writes (the files are written with write_all and never fsynced).",
+   technique=TECH + ": crash-state enumeration of the three background-written index files per rollover (scheduler holds the flush jobs), recovery checked against a reference model", ref="§4 C06"),
+ "C19": dict(engine="storesim", cat="exploration",
+   text="Same engine, sequential scheduler; per run a twin of the target transaction is first stored in the empty segment (premise: it fits; stored size measured through the append hook), then byte-precise filler appends steer the live segment's free space below / between / above (estimated size, stored size) of the target, which is then appended with up to five identical attempts and read back.",
+   note="The deciding dimensions are history and configuration (fill level, payload entropy, compression), not schedule; the critical zone estimated <= free < stored is a few bytes wide and is hit in a minority of runs (counted in probes).",
+   technique=TECH + ": seeded histories steering the live segment's fill level between estimated and stored size, retry loop, read-back against the model", ref="§4 C19"),
+ "C26": dict(engine="breakersim", cat="exploration",
+   text="The real circuit_breaker.rs source file is compiled (build.rs) against shuttle's atomics and a simulated millisecond wall clock; each run is one shuttle execution (seeded random or PCT depth 2-4 scheduler, every atomic access a scheduling point) of 2-3 threads x 3-8 calls with the clock advanced or stepped backwards between calls. Oracle: no panic; from the recorded call intervals, no half-open episode admits more than half_open_max_calls (+ the transition-triggering request) for every linearisation; Closed->Open only when enough failures had started.",
+   note="Sequentially consistent interleavings only (no weak-memory effects); verdicts are interval-conservative, so some real violations overlapping episode edges are not counted.",
+   technique=TECH + ": shuttle-controlled thread schedules (seeded random + PCT) over the real breaker source with a simulated clock, interval-based history oracle", ref="§4 C26"),
  "C17": dict(engine="storesim", cat="fault_enumeration",
    text="Seeded segments written by the real seglog Writer; per target record every single-bit flip, bursts of 2..32 bits and every truncation length are applied to the stored bytes of the real file and each is checked through random read, sequential read, iteration, parse_record and Writer::open (never Ok, never a panic; predecessors intact; writer resumes after the last intact record). Exhaustive per sampled record below the caps, sampled above.",
    note="Trusts the harness's byte-level fault application and the model of what was appended; CRC collisions for multi-bit faults outside the enumerated classes are not searched.",
